@@ -15,7 +15,7 @@ EXPLANATION = (
 NOT_DECIDED = ("that no boundary is skipped/invented, distances within tolerance, finite crossings "
                "(geometric, numeric)")
 
-TECHNIQUE = ("typestate rules on the navigator's CFG: must-pass after every position/direction write, guard dominance on failure edges, cache write/read pairing; frame agreement: provenance of the values captured by tracker-visitor lambdas and of vectors carried through the per-level placement transforms")
+TECHNIQUE = ("typestate rules on the navigator's CFG: must-pass after every position/direction write, guard dominance on failure edges, cache write/read pairing; frame agreement: provenance of the values captured by tracker-visitor lambdas and of vectors carried through the per-level placement transforms; loop-range provenance of the per-level moves; dependence of the exiting sense on the running sense table")
 
 UNITS = [
     "src/celeritas/geo/detail/BoundaryAction.cc",
